@@ -129,6 +129,7 @@ func (c13Engine) Gen(t *rapid.T, tier string) any {
 			Rate: 10, Burst: 10, MaxLen: 100000},
 		Conn:       simrt.SimConnCfg{Chunk: rapid.SampledFrom([]int{16, 512, 4096, 65536}).Draw(t, "ws.chunk")},
 		StallAfter: rapid.SampledFrom([]int{0, 100, 3000}).Draw(t, "ws.stallafter"),
+		Idle:       rapid.IntRange(0, 2).Draw(t, "ws.idle") == 0,
 	}
 	c.Sched = GenSchedule(t, 3000)
 	if c.Sched.SelMode == 0 {
